@@ -43,7 +43,7 @@ theorem run_shape_pool {cfg : Cfg} (wf : WF cfg) (ord : List Path) (hord : ord.N
     cases rs with
     | true => simpa using runPool_resume_eq cfg ord s1 s2 fs
     | false => simpa using runPool_fresh_eq cfg ord s1 s2 (hcl rfl)
-  obtain ⟨hg, hfin⟩ := rest_run_pool wf ord hord rs (rs && fs.has .lock) s1 s2 hj
+  obtain ⟨hg, hfin⟩ := rest_run_pool_ref wf ord hord rs (rs && fs.has .lock) s1 s2 hj
     (by intro e; simp only [Bool.and_eq_true] at e; exact e.1)
     (by intro e; simp only [Bool.and_eq_true] at e; rw [hlk]; exact e.2)
     (by intro e _ e'; rw [hlk]; subst e'; simpa using e)
@@ -60,7 +60,8 @@ theorem run_shape_pool {cfg : Cfg} (wf : WF cfg) (ord : List Path) (hord : ord.N
   obtain ⟨hok0, hevs0⟩ := runActs_of_checks hck
   have hfs0 : (runActs (paramsStage rs fs) fs).fs = afterParams fs := by
     rw [runActs_fs, hevs0, hev]; rfl
-  refine ⟨(runPhases (restPhases cfg ord rs ((rs && fs.has .lock) || cfg.fromSaves) s1 s2) (afterParams fs)).evs, ?_, ?_, hg.2, ?_⟩
+  refine ⟨(runPhases (.seq (refStage fixed cfg rs) :: restPhases cfg ord rs ((rs && fs.has .lock) || cfg.fromSaves) s1 s2)
+    (afterParams fs)).evs, ?_, ?_, hg.2, ?_⟩
   · simp only [hrun, phases_eq, runPhases, runPhase, hok0, if_true, hevs0, hev, hfs0]; rfl
   · simp only [hrun, phases_eq, runPhases, runPhase, hok0, if_true, hfs0]; exact hg.1
   · simp only [hrun, phases_eq, runPhases, runPhase, hok0, if_true, hfs0]; exact hfin
@@ -230,9 +231,10 @@ def ord2 : List Path := [.info, .multimap 0, .multimap 1, .lock, .save 0, .save 
                          .trStat 1, .rgLock]
 
 theorem cfg2_wf : WF cfg2 := by
-  refine ⟨by decide, by decide, by decide, ?_, ?_⟩ <;> intro c <;>
-    simp only [cfg2, List.mem_cons, List.not_mem_nil, or_false] <;>
-    constructor <;> rintro (rfl | rfl) <;> simp
+  refine ⟨by decide, by decide, by decide, ?_, by decide⟩
+  intro c
+  simp only [cfg2, List.mem_cons, List.not_mem_nil, or_false]
+  constructor <;> rintro (rfl | rfl) <;> simp
 
 /-! ### a task may be started at any moment of its parallel stage
 
